@@ -203,7 +203,13 @@ def build_model():
         h = src_hash(srcs)
         if os.path.exists(stamp) and open(stamp).read() == h and os.path.exists(XSMODEL):
             return
-        rc, out = sh(["timeout", "600", "coqc", "-Q", ".", "XS", "Extract.v"], cwd=COQ)
+        # the model files Extract.v requires may be stale when only one property's closure was rebuilt
+        with Lock("coq"):
+            deps = [v + "o" for v in coq_deps("Extract.v") if v != "Extract.v"]
+            rc, out = sh(["timeout", "1500", "make", "-j16"] + deps, cwd=COQ, timeout=1600)
+            if rc:
+                raise BuildError("extraction (model files)", out)
+            rc, out = sh(["timeout", "600", "coqc", "-Q", ".", "XS", "Extract.v"], cwd=COQ)
         if rc:
             raise BuildError("extraction", out)
         for m in mls:
